@@ -159,6 +159,12 @@ func (w *c15World) setupCollector(appID, asset, secondary uint64, debt bool) {
 		IsSurplusAuctions: !debt, IsDebtAuctions: debt, IsDistributor: false, AssetOutOraclePrices: false, AssetOutPrices: 1000000}), "auction mapping")
 }
 
+// external vault rewards for (app, extended pair): paid out daily by the incentive hook
+func (w *c15World) activateVaultRewards(appID, extPair uint64, from sdk.AccAddress, denom string) {
+	w.fund(from, denom, 1000000000)
+	w.must(w.deliver(rewardstypes.NewMsgActivateExternalRewardsVault(appID, extPair, sdk.NewCoin(denom, sdk.NewInt(700000000)), 7, 1, from)), "ext vault rewards")
+}
+
 // triggerESM: the governance-token holders deposit the target and execute the emergency shutdown of app 1.
 func (w *c15World) triggerESM(appID uint64) {
 	w.must(w.app.EsmKeeper.AddESMTriggerParamsForApp(w.ctx, &bindings.MsgAddESMTriggerParams{
@@ -267,6 +273,17 @@ func (w *c15World) setupV2(nVaults, nBorrows int) {
 	w.setupCollector(2, a3, a4, false)
 	w.must(w.app.LendKeeper.AddAuctionParamsData(w.ctx, lendtypes.AuctionParams{AppId: 3, AuctionDurationSeconds: 21600, Buffer: c15Dec("1.2"),
 		Cusp: c15Dec("0.7"), Step: sdk.NewInt(360), PriceFunctionType: 1, DutchId: 3, BidDurationSeconds: 3600}), "lend auction params")
+	if nVaults > 0 {
+		// a second product with a FIXED debt price (AssetOutOraclePrice = false) and one vault on it
+		w.must(w.app.AssetKeeper.WasmAddExtendedPairsVaultRecords(w.ctx, &bindings.MsgAddExtendedPairsVault{
+			AppID: 2, PairID: 1, StabilityFee: c15Dec("0.01"), ClosingFee: c15Dec("0"), LiquidationPenalty: c15Dec("0.12"), DrawDownFee: c15Dec("0.01"),
+			IsVaultActive: true, DebtCeiling: sdk.NewInt(1000000000000), DebtFloor: sdk.NewInt(1000000), MinCr: c15Dec("1.5"), PairName: "CMDX-C",
+			AssetOutOraclePrice: false, AssetOutPrice: 1000000, MinUsdValueLeft: 1000000}), "ext pair fixed")
+		u := w.addr[5]
+		w.fund(u, "uasset2", 100000000)
+		w.must(w.deliver(&vaulttypes.MsgCreateRequest{From: u.String(), AppId: 2, ExtendedPairVaultId: 2,
+			AmountIn: sdk.NewInt(1000000), AmountOut: sdk.NewInt(1000000)}), "v2 fixed-price vault create")
+	}
 	for i := 0; i < nVaults; i++ {
 		u := w.addr[1+i]
 		w.fund(u, "uasset2", 100000000)
